@@ -182,6 +182,16 @@ def mutants(r, gd, g, img0, tier):
     yield m("bpb-totsec-0", lambda i: (struct.pack_into("<H", i, 19, 0), struct.pack_into("<L", i, 32, 0)))
     yield m("bpb-totsec-tiny", lambda i: (struct.pack_into("<H", i, 19, 3), struct.pack_into("<L", i, 32, 0)))
     yield m("bpb-totsec-huge", lambda i: (struct.pack_into("<H", i, 19, 0), struct.pack_into("<L", i, 32, 0xFFFFFFFF)))
+    # two damages that are each handled: a cycle, and a size field every derived bound is computed from
+    huge = lambda i: (struct.pack_into("<H", i, 19, 0), struct.pack_into("<L", i, 32, 0xFFFFFFFF))  # noqa: E731
+    yield m("chain-cycle-file+bpb-totsec-huge", lambda i: (set_fat(i, g, fchain[-1], fchain[0]), huge(i)))
+    yield m("chain-self-loop-file+bpb-totsec-huge", lambda i: (set_fat(i, g, fchain[1], fchain[1]), huge(i)))
+    yield m("chain-cycle-dir+bpb-totsec-huge", lambda i: (set_fat(i, g, dchain[-1], dchain[0]), huge(i)))
+    bigsize = lambda i: struct.pack_into("<L", i, fo + 28, 0xFFFFFFFF)  # noqa: E731
+    yield m("chain-cycle-file+size-huge", lambda i: (set_fat(i, g, fchain[-1], fchain[0]), bigsize(i)))
+    yield m("chain-cycle-file+size-huge+bpb-totsec-huge", lambda i: (set_fat(i, g, fchain[-1], fchain[0]), bigsize(i), huge(i)))
+    yield m("chain-cycle-file+bpb-fatsz-huge", lambda i: (set_fat(i, g, fchain[-1], fchain[0]),
+                                                          (bs(22, "<H", 0xFFFF) if g.type != 32 else bs(36, "<L", 0x00FFFFFF))(i)))
     yield m("bpb-media-0", bs(21, "<B", 0))
     yield m("bpb-fatsz16-0", bs(22, "<H", 0))
     yield m("bpb-fatsz-huge", (bs(22, "<H", 0xFFFF) if g.type != 32 else bs(36, "<L", 0x00FFFFFF)))
